@@ -9,10 +9,13 @@
 (*     MSetPE       `pause_expected.store(..)` (atomic)                                      *)
 (*     MAct         DebugControl::apply_action / set_breakpoints_for_file (DebugState mutex) *)
 (*     MGateEnter   `stop_gate.enter()` (gate mutex)                                         *)
+(*     MInspect     stackTrace / scopes / variables: PausedStateView::new reads the snapshot  *)
+(*     MInspectLock ... and, without one, takes the runtime mutex (paused.rs with_storage)    *)
 (*     MWrite       write_message_locked(response) (stdout mutex)                            *)
 (*     MDone        end of the loop iteration: the StopGateToken is dropped                  *)
 (*   cycle thread R (runtime hook, debug/control.rs on_statement_inner; abstracted: WHICH    *)
 (*                  statement stops is the runtime-level module DebugControl's business)     *)
+(*     RCycleBegin / RCycleEnd  the runner takes / drops the runtime mutex around a cycle    *)
 (*     RStop        a stop is decided, sent into the stop channel, the hook waits            *)
 (*     RResume      the hook leaves its wait                                                 *)
 (*   stop coordinator C (stop.rs StopCoordinator::spawn)                                     *)
@@ -20,6 +23,7 @@
 (*     CGate        stop_gate.wait_clear() returns                                           *)
 (*     CPE          should_emit_stop: the pause_expected swap / store                        *)
 (*     CGen         should_emit_stop: breakpoint_generation(file) comparison                 *)
+(*     CDropPE / CDropGen  the stop is forgotten (stale pause / outdated breakpoint set)     *)
 (*     CWrite       emit_stop: write_message_locked(stopped event)                           *)
 (*   client                                                                                  *)
 (*     Send / Recv  requests into stdin, messages off stdout, in wire order                  *)
